@@ -356,7 +356,7 @@ class C18(common.Check):
         for c in cases:
             if c[0] == "fresh":
                 continue  # (runs in a child interpreter: nothing to warm up here)
-            k = (c[0], c[1]) if isinstance(c, (list, tuple)) and len(c) > 1 else None
+            k = (c[0], c[1] if isinstance(c[1], str) else None)  # (one case per kind and flavour; c[1] of a thread case is its seed)
             if k not in seen:
                 seen.add(k)
                 try:
